@@ -30,8 +30,9 @@ def sh(cmd, timeout=3600, env=None):
 
 def main():
     pid, outdir, i = sys.argv[1], sys.argv[2], sys.argv[3]
+    label = sys.argv[4] if len(sys.argv) > 4 else ""
     wt = "/tmp/confirm-%s" % pid.lower()
-    dest = os.path.join(V, "seeded", "%s-%s" % (pid, i))
+    dest = os.path.join(V, "seeded", "%s-%s%s" % (pid, label, i))
     patch = os.path.join(outdir, "patch%s.diff" % i)
     demo = os.path.join(outdir, "demo%s.c" % i)
     meta_in = os.path.join(outdir, "meta%s.json" % i)
@@ -48,7 +49,7 @@ def main():
             print("baseline build failed\n" + out[-2000:])
             return 3
         src = open(demo).read()
-        src2 = re.sub(r"/tmp/seed-c\d\d", wt, src)
+        src2 = re.sub(r"/tmp/seed2?-c\d\d", wt, src)
         dpath = os.path.join(wt, "_b", "demo.c")
         open(dpath, "w").write(src2)
         cc = "cc -O1 -g -I%s/include -I%s/_b/generated/include %s %s/_b/libaws-c-common.a -lpthread -ldl -lm -o %s/_b/demo" % (wt, wt, dpath, wt, wt)
@@ -98,7 +99,7 @@ def main():
                     "detected_by_quick_check": rc_chk == 1 and bool(viol), "what_i_ran": ran,
                     "repo_head": sh("git -C /repo rev-parse --short HEAD")[1].strip()}
         json.dump(meta_out, open(os.path.join(dest, "meta.json"), "w"), indent=1)
-        print("SEED %s-%s valid=%s detected=%s (check rc=%s, %ss)" % (pid, i, valid, meta_out["detected_by_quick_check"], rc_chk, ran[-1]["wall_s"]))
+        print("SEED %s-%s%s valid=%s detected=%s (check rc=%s, %ss)" % (pid, label, i, valid, meta_out["detected_by_quick_check"], rc_chk, ran[-1]["wall_s"]))
         return 0
     finally:
         sh("git -C /repo worktree remove --force %s" % wt)
